@@ -1,1 +1,43 @@
-(* placeholder *) From Klepto Require Import CacheCore.
+(* C07  Nothing is lost on eviction: leaving memory means being in the archive. *)
+From Klepto Require Import OMap CacheDict CacheDictFacts CacheCore CoreInv CoreStep CoreSize CoreExn CoreStore.
+
+(* one call, any decorator (bounded algorithms, no_cache, inf; standard and safe; purge on/off),
+   archive attached: (1) the archive stays attached, memory and archive keep agreeing,
+   (2) no archived entry is changed or removed, (3) whatever was retrievable (memory or archive)
+   still is, with the same value - so an entry that leaves memory by eviction or purge IS in the
+   archive - and (4) the result computed by the call is retrievable afterwards.
+   (no_cache's memory is only a staging area: for it (3) is stated on the archive, clause (2).) *)
+Theorem C07_call : forall c s kr fr orc, WF c s -> archived_ c s = true -> agree s ->
+  let s' := fst (call c s kr fr orc) in
+  archived_ c s' = true /\ agree s' /\
+  (forall x v, a_get (arch (cs s)) x = Some v -> a_get (arch (cs s')) x = Some v) /\
+  (c_alg c <> NO -> forall x v, retr s x v -> retr s' x v) /\
+  (forall k v ev, kr = KOk k -> snd (call c s kr fr orc) = ORet v ev ->
+     (ev = 0 /\ retr s k v) \/
+     (ev = 1 /\ fr = Ret v /\ get (smem s) k = None /\ a_get (arch (cs s)) k = None /\ retr s' k v)).
+Proof. exact call_keeps. Qed.
+
+(* over whole histories of cache traffic (calls, load, dump, introspection) *)
+Theorem C07_history : forall c ops s, forallb traffic ops = true -> Good c s ->
+  Good c (run c s ops) /\
+  (forall x v, a_get (arch (cs s)) x = Some v -> a_get (arch (cs (run c s ops))) x = Some v) /\
+  (c_alg c <> NO -> forall x v, retr s x v -> retr (run c s ops) x v).
+Proof. exact history_keeps. Qed.
+
+Example C07_witness :
+  let c := mkCfg LFU 2 false false false in
+  let s0 := init_state (mkC [] (AStore []) ANull) in
+  let s := run c s0 [Call (KOk 1) (Ret 11) 0; Call (KOk 2) (Ret 12) 0; Call (KOk 2) (Ret 12) 0; Call (KOk 3) (Ret 13) 0] in
+  Good c s0 /\ smem s = [(2, 12)] /\ a_contents (arch (cs s)) = [(1, 11); (3, 13)].
+Proof.
+  cbv zeta. split; [|split].
+  - split; [|split].
+    + apply WF_init_any. unfold wf_c, wf_arch; cbn. repeat split; repeat constructor.
+    + reflexivity.
+    + intros k v v'. cbn. discriminate.
+  - vm_compute. reflexivity.
+  - vm_compute. reflexivity.
+Qed.
+
+Print Assumptions C07_call.
+Print Assumptions C07_history.
